@@ -133,7 +133,7 @@ func TestC06_Shipped(t *testing.T) {
 	if err := refAvailable(); err != nil {
 		t.Fatalf("INFRA: %v", err)
 	}
-	ev := NewEv(t, "C06", "shipped", "every built profile whose header carries a resolved @{exec_path} attachment, for real builds of 5 distributions in thorough (all ~1400 profiles each) and 2 distributions x a seeded sample of 250 profiles in quick; oracle: two stub profiles compiled by the reference parser over upstream + built tunables - the profile's own preamble with 'profile s @{exec_path}' and with the literal attachment of the built header - must have equivalent attachment automata (product walk, shortest witness path). Non-trivial: exec_path with >= 2 values, a '+=' or a nested variable; distinct by distribution + profile")
+	ev := NewEv(t, "C06", "shipped", "every built profile whose header carries a resolved @{exec_path} attachment, for real builds of 5 distributions in thorough and 2 distributions (one seeded, and opensuse, which carries the only distribution-specific tunable) in quick, all ~1400 profiles each; oracle: two stub profiles compiled by the reference parser over upstream + built tunables - the profile's own preamble with 'profile s @{exec_path}' and with the literal attachment of the built header - must have equivalent attachment automata (product walk, shortest witness path). Non-trivial: exec_path with >= 2 values, a '+=' or a nested variable; distinct by distribution + profile")
 	srcIdx := sourceTextIndex()
 	var mu sync.Mutex
 	for _, dist := range c06Dists() {
@@ -157,7 +157,7 @@ func TestC06_Shipped(t *testing.T) {
 			}
 		}
 		sort.Strings(names)
-		if !isThorough() && len(names) > 250 {
+		if false && !isThorough() && len(names) > 250 { // quick compares every profile too: a single-file slip must not hide in a sample
 			// seeded sample
 			x := uint64(seedInt())*2862933555777941757 + 3037000493
 			for i := len(names) - 1; i > 0; i-- {
